@@ -89,6 +89,16 @@ class ScriptedOptimizer(Optimizer):
             x0 = x0[mask]
         log = self._ctx.backend_log if self._ctx is not None else []
         log.append({"ev": "start", "x0": x0.copy(), "n_free": int(x0.size), "config": self._config})
+        if "array_option" in self._opts:
+            # an algorithm option that has to be a NumPy array of a given type and shape (like TNC's `scale`): what the
+            # user configured must be what the algorithm gets, wherever it runs
+            val, meta = self._opts["array_option"], self._opts["array_option_meta"]
+            if not isinstance(val, np.ndarray):
+                msg = f"Argument 'array_option' has incorrect type (expected numpy.ndarray, got {type(val).__name__})"
+                raise TypeError(msg)
+            if str(val.dtype) != meta["dtype"] or list(val.shape) != list(meta["shape"]):
+                msg = f"array_option arrived as {val.dtype}{list(val.shape)}, configured {meta['dtype']}{list(meta['shape'])}"
+                raise TypeError(msg)
         for idx, entry in enumerate(self._script):
             if self._opts.get("raise_at") == idx:
                 msg = f"simulated optimizer failure before request {idx}"
